@@ -57,9 +57,10 @@ let obool s = if s = "-" then None else Some (s = "1")
 
 let string_of_segment s =
   Printf.sprintf "%d,%d,%s" (int_of_z s.s_mode) (int_of_z s.s_count) (string_of_bits s.s_bits)
-let string_of_code c =
-  Printf.sprintf "OK %d %s %d %s %s" (int_of_z c.c_version) (soz c.c_error) (int_of_z c.c_mask)
+let code_body c =
+  Printf.sprintf "%d %s %d %s %s" (int_of_z c.c_version) (soz c.c_error) (int_of_z c.c_mask)
     (string_of_rows c.c_matrix) (String.concat ";" (List.map string_of_segment c.c_segments))
+let string_of_code c = "OK " ^ code_body c
 
 let string_of_level = function None -> "-" | Some LvL -> "L" | Some LvM -> "M" | Some LvQ -> "Q" | Some LvH -> "H"
 let string_of_dmode = function DNumeric -> "numeric" | DAlnum -> "alphanumeric" | DByte -> "byte" | DKanji -> "kanji" | DHanzi -> "hanzi"
@@ -76,6 +77,18 @@ let segs_of_string s =
   if s = "-" then [] else
   List.map (fun t -> match String.split_on_char ',' t with
                      | [m; c; e] -> ((zi m, zi c), e = "1") | _ -> failwith "bad seg") (String.split_on_char ';' s)
+
+(* sequence content:  B;hex  |  T;g,l,s,u|g,l,s,u|...  (one group per character) *)
+let scontent_of_string s =
+  match String.split_on_char ';' s with
+  | ["B"; hex] -> SBytes (bytes_of_hex hex)
+  | ["T"; chars] ->
+      SText (if chars = "-" then [] else
+             List.map (fun c -> match String.split_on_char ',' c with
+                                | [g; l; sj; u] -> { ch_given = codec_of_string g; ch_latin1 = codec_of_string l;
+                                                     ch_sjis = codec_of_string sj; ch_utf8 = codec_of_string u }
+                                | _ -> failwith "bad char") (String.split_on_char '|' chars))
+  | _ -> failwith "bad content"
 
 let handle toks =
   match toks with
@@ -108,6 +121,11 @@ let handle toks =
        | Some v -> string_of_int (int_of_z v) | None -> "NONE")
   | ["spec_boost"; v; req; sa; segs] -> string_of_int (int_of_z (spec_boost (zi v) (zi req) (segs_of_string segs) (sa = "1")))
   | ["spec_bits"; v; sa; segs] -> string_of_int (int_of_z (spec_bits (zi v) (segs_of_string segs) (sa = "1")))
+  | ["encseq"; error; version; mode; mask; en; ec; eci; boost; count; content] ->
+      (match encode_sequence (scontent_of_string content) (ozi error) (ozi version) (ozi mode) (ozi mask) (enc_of en ec)
+               (eci = "1") (boost = "1") (ozi count) with
+       | Ok cs -> "OK " ^ String.concat " | " (List.map code_body cs)
+       | Err e -> "ERR " ^ string_of_exn e)
   | ["find_mode"; hex] -> string_of_int (int_of_z (find_mode (bytes_of_hex hex)))
   | ["mask_scores"; rows] ->
       let r = rows_of_string rows in
